@@ -75,7 +75,7 @@ class Validator(object):
         :raises: :exc:`ValidationWarning <hl7apy.exceptions.ValidationWarning>`: errors concerning the values
         """
 
-        from hl7apy.core import is_base_datatype
+        from hl7apy.core import is_base_datatype, _valid_child_name
 
         def _check_z_element(el, errs, warns):
             if el.classname == 'Field':
@@ -152,6 +152,9 @@ class Validator(object):
             if ref[0] in ('sequence', 'choice'):
                 element_children = {c.name for c in el.children if not c.is_z_element()}
                 valid_children, valid_children_refs = _get_valid_children_info(ref)
+                if el.classname == 'Segment' and el.allow_infinite_children:
+                    # a segment whose last field is of type varies accepts further fields <SEG>_<n>
+                    element_children = {n for n in element_children if not _valid_child_name(n, el.name)}
 
                 # check that the children are all allowed children
                 if not element_children <= valid_children:
